@@ -359,6 +359,8 @@ def parse_case(rec):
             cur["opr"] = dict(x.split("=", 1) for x in w[2:])
         elif w[0] == "V" and cur is not None:
             cur["views"][w[2]] = w[3:]
+        elif w[0] == "ACC" and cur is not None:
+            cur["acc"] = w[2:]
         elif w[0] == "RL":
             P["RL"] = (int(w[1]), w[2], w[3] if len(w) > 3 else "-")
         elif w[0] == "RLB":
@@ -403,6 +405,8 @@ def analyse(ctx, exe, c, rec):
         last = max(P["ops"]) if P["ops"] else -1
         if last < 0 or P["ops"][last]["opr"] is None:
             phase = "op%d(%s)" % (max(last, 0), c["ops"][max(last, 0)][0])
+        elif P["ops"][last].get("acc") == ["begin"]:
+            phase = "op%d(GetComponentCount after %s)" % (last, c["ops"][last][0])
         elif P["RL"] is None:
             phase = "reload"
         else:
@@ -435,6 +439,9 @@ def analyse(ctx, exe, c, rec):
         info["nerr"] += nerr
         info["nwarn"] += nwarn
         info["ret"].append(ret)
+        acc = o.get("acc", [])
+        if len(acc) > 1 and acc[1] != "exc=-":
+            issues.append(("a", "escaping-exception:GetComponentCount", f"GetComponentCount after {o['kind']} let an exception escape: {txt(unhx(acc[1][4:]), 200)}"))
         if r["exc"] != "-":
             ty, fn = resolve_throw(exe, r.get("throw", "?"))
             issues.append(("a", f"escaping-exception:{ty}:{fn}", f"{o['kind']} let an exception escape: {txt(unhx(r['exc']), 200)} (thrown in {fn})"))
